@@ -55,6 +55,10 @@ def _small_c07(args):
     for j, op in enumerate(('add', 'sub', 'mul')):
         for r in (routes if tier == 'thorough' else [routes[(idx + j) % 4]]):
             out.append(x_arith.observe_arith(fx, np, [pid], op, tx, ty, cxs, cys, route=r))
+        # a class-level template of the OTHER signedness is active while the operation runs: results are what they are without it
+        sres = tx[0] or ty[0]
+        out.append(x_arith.observe_arith(fx, np, [pid], op, tx, ty, cxs, cys, route=routes[(idx + j + 3) % 4],
+                                         template=(not sres, 9 + idx % 5, idx % 4)))
         # repr method gives the same exact results
         out.append(x_arith.observe_arith(fx, np, [pid], op, tx, ty, cxs, cys, route='operator', method='repr'))
         if tx[2] <= 0 or ty[2] <= 0:      # ... also for operands built by value from Python integers (their reads are integer arrays)
@@ -70,7 +74,7 @@ def _small_c07(args):
         for a in corners(tx)[:4]:
             for b in corners(ty)[:4]:
                 if (a + b + idx) % 3 == 0 or tier == 'thorough':
-                    out.append(x_arith.observe_arith(fx, np, [pid], op, tx, ty, [a], [b], scalar=True))
+                    out.append(x_arith.observe_arith(fx, np, [pid], op, tx, ty, [a], [b], scalar=True, dirty=('element' if (a + b + idx) % 2 else False)))
     if idx % 4 == 0 or tier == 'thorough':
         out += _broadcast(fx, np, pid, tx, ty)
     return _tag(out)
